@@ -129,6 +129,7 @@ def gen_c19(rng, tier):
 
 
 class C19(Prop):
+    named_errors = set()                  # error kinds: wrapper vs specific API are compared with each other exactly
     pid = "C19"
     title = "wrappers and JSON"
     thm_modules = ["PeliteModel.Thm.C19"]
